@@ -1,3 +1,6 @@
 //! C20 — not built yet.
 pub const BUILT: bool = false;
 pub fn run(_rep: &mut vx::Report) {}
+pub fn worker_main(_args: &[String]) -> i32 {
+    2
+}
